@@ -38,7 +38,6 @@ Definition aobs_eqb (a b : aobs) : bool :=
   | ASocks v x, ASocks v' x' => Bool.eqb v v' && Bool.eqb x x'
   | _, _ => false
   end.
-Definition ev_conn (e : event) : N := match e with EReq c _ _ _ _ _ => c | ESocks c _ _ => c end.
 Definition is_some {A} (o : option A) : bool := match o with Some _ => true | None => false end.
 Fixpoint arun (ms1 : bool) (V : option validator) (st : authstate) (es : list event) : list aobs :=
   match es with
